@@ -733,6 +733,54 @@ pub fn run_for(desc: &Value, ctx: &Ctx, oracle: Oracle) -> CaseOut {
             }
         }
         Oracle::C05 => {
+            // A damaged pack description, then the location of that very pack rewritten with the library's tool: rewriting
+            // re-serialises the block with a fresh CRC, so it must refuse a block that does not verify; what the reader
+            // returns afterwards is judged like any other dump (the location of that pack aside).
+            let mut after_rewrite: Option<Dump> = None;
+            if structure.starts_with("pack info") && fname == "c.jbk" {
+                if let Some(indep::PackBody::Manifest { infos }) = view.manifest_pack().map(|p| &p.body) {
+                    if let Some(info) = changed.first().and_then(|c| infos.iter().find(|i| i.at <= *c && *c < i.at + 256)) {
+                        let target = dir.join("c.jbk");
+                        let uuid = uuid::Uuid::from_bytes(info.uuid);
+                        let r = util::catch(|| jubako::tools::set_location(&target, uuid, "relocated.jbkc".into()).map(|o| o.is_some()).map_err(|e| e.to_string()));
+                        out.obs.inc(match &r {
+                            Ok(Ok(true)) => "rewrite_after_damage.accepted",
+                            Ok(Ok(false)) => "rewrite_after_damage.pack_not_found",
+                            Ok(Err(_)) => "rewrite_after_damage.refused",
+                            Err(_) => "rewrite_after_damage.panicked(C06)",
+                        });
+                        // (what a pack description decides: the pack list, each pack's description and free data, the checks)
+                        let mut p2 = plan.clone();
+                        p2.indexes.clear();
+                        p2.addrs.truncate(4);
+                        let mut d2 = dump_container(&target, &p2);
+                        // the rewritten location itself is not compared
+                        let strip = |v: &str| v.split(" loc=").next().unwrap_or("").to_string();
+                        for (_, v) in d2.iter_mut() {
+                            *v = strip(v);
+                        }
+                        after_rewrite = Some(d2);
+                    }
+                }
+            }
+            if let Some(d2) = &after_rewrite {
+                for (k, v) in d2 {
+                    if !v.starts_with("ok:") || k.starts_with("check/") || k.ends_with("/bytes") {
+                        continue;
+                    }
+                    if let Some(p) = s.pristine.get(k) {
+                        let p = p.split(" loc=").next().unwrap_or("").to_string();
+                        if p != *v {
+                            out.violate(
+                                json!({"kind": "silent-difference", "item": k.split('/').next().unwrap_or(""), "structure": structure, "after_rewrite": true, "profile": profile()}),
+                                format!("C05: after {} in {structure} of {fname} ({}) and a rewrite of that pack's location, item {k} silently reads {} (pristine {})", d.op(), s.name, util::truncate(v, 120), util::truncate(&p, 120)),
+                                json!({"item": k}),
+                            );
+                            break;
+                        }
+                    }
+                }
+            }
             // structural items must be identical to the pristine ones or an error
             let mut bytes_differ = false;
             for (k, v) in &got {
